@@ -189,6 +189,15 @@ def check(ctx):
         ctx.ob("EFF-asis", ext, "other -> itertools.chain(self, other)", u, ok,
                "a plain sequence of dicts is converted to a ListOfDicts first" if ok else
                "extend hands on the caller's dicts unconverted", clause="items support attribute access")
+    fm = repo.fn(f"{LOD}.fill_missing_keys")
+    stores = [n for n in body_nodes(fm.node) if isinstance(n, ast.Assign) and isinstance(n.targets[0], ast.Subscript)
+              and norm(n.targets[0].value) == "item"]
+    ok = bool(stores) and all(("T", f"{norm(s_.targets[0].slice)} not in item") in facts_at(fm, s_) for s_ in stores)
+    ctx.rule("KEY-guard", "fill_missing_keys writes a key only when the item lacks it")
+    ctx.ob("KEY-guard", fm, norm(stores[0]) if stores else "item[key] = value", stores[0] if stores else fm.node, ok,
+           "a key is filled in only when it is absent from the item" if ok else
+           "fill_missing_keys writes keys that are present (e.g. present with value None): it changes entries it must leave alone",
+           clause="fill_missing_keys change only the named keys of the items concerned")
     # ------------------------------------------------------------- ORD-sort
     srt = repo.fn(f"{LOD}.sort")
     calls = [c for f, c in calls_in(srt) if repo.dotted(f, c.func) == "builtins.sorted"]
